@@ -29,6 +29,7 @@ from ._storage import (
     clear_treeflatten_memo,
     clear_treepath_memo,
     get_shape_memo,
+    get_treeflatten_memo,
     set_shape_memo,
     set_treeflatten_memo,
     set_treepath_memo,
@@ -121,11 +122,15 @@ class _MetaPyTree(type):
 
             is_flatten_leaftype = is_check_leaftype = is_leaftype
 
+        # If we are nested inside the flattening of an enclosing `PyTree[...]` check, then
+        # leave its tree-flatten mode switched on when we are done.
+        already_flattening = get_treeflatten_memo()
         set_treeflatten_memo()
         try:
             leaves, structure = jtu.tree_flatten(obj, is_leaf=is_flatten_leaftype)
         finally:
-            clear_treeflatten_memo()
+            if not already_flattening:
+                clear_treeflatten_memo()
         if cls.structure is not None:
             if cls.structure.isidentifier():
                 try:
@@ -183,15 +188,19 @@ class _MetaPyTree(type):
                     if structure != named_structure:
                         return False
 
+        # Only a structured `PyTree[..., "T"]` sets the treepath, so only it clears it: a
+        # structure-less `PyTree[...]` nested inside must leave the enclosing one's alone.
         try:
             for leaf_index, leaf in enumerate(leaves):
                 if cls.structure is not None:
                     set_treepath_memo(leaf_index, cls.structure)
                 if not is_check_leaftype(leaf):
                     return False
-                clear_treepath_memo()
+                if cls.structure is not None:
+                    clear_treepath_memo()
         finally:
-            clear_treepath_memo()
+            if cls.structure is not None:
+                clear_treepath_memo()
         return True
 
     # Can't return a generic (e.g. _FakePyTree[item]) because generic aliases don't do
